@@ -1014,7 +1014,9 @@ pub fn run_pair_only(
         variants.push("full");
     }
     if profile.c09_mode {
-        variants = vec!["crash"];
+        // A crash, and a single failing write with the instance
+        // staying up (no restart heals what the failure lost).
+        variants = vec!["crash", "fail"];
     }
     // A crash followed by a second crash during start-up or during the
     // background work right after it.
@@ -1528,6 +1530,16 @@ fn run_phase(
             let res = r.exec_pump();
             hooks::log(format!("recover pump {res}"));
             if r.dead.is_some() { break }
+        }
+        if matches!(mode, FaultMode::FailAt(_)) && r.dead.is_none() {
+            // A task that failed on the I/O error is retried later (the
+            // RRDP update after an hour): late, not lost.
+            r.world.advance(3700);
+            for _ in 0..2 {
+                let res = r.exec_pump();
+                hooks::log(format!("recover retry pump {res}"));
+                if r.dead.is_some() { break }
+            }
         }
         if r.dead.is_some() {
             r.violation(
